@@ -122,6 +122,22 @@ def abstract_products(fmls):
             divmods[key] = (x, d, q, r)
         return divmods[key][2], divmods[key][3]
 
+    rdivs = {}
+
+    def rdiv(x, d):
+        """x / d over the reals with a non-constant divisor: a fresh q with the valid facts d != 0 -> q * d = x (the product
+        abstracted) and the sign / unit-interval consequences for d > 0"""
+        key = (x.get_id(), d.get_id())
+        if key not in rdivs:
+            ctr[0] += 1
+            q = z3.Real("ratio!%d" % ctr[0])
+            facts.append(z3.Implies(d != 0, prod(q, d) == x))
+            facts.extend([z3.Implies(z3.And(d > 0, x >= 0), q >= 0), z3.Implies(z3.And(d > 0, x > 0), q > 0), z3.Implies(z3.And(d > 0, x <= 0), q <= 0),
+                          z3.Implies(z3.And(d > 0, x <= d), q <= 1), z3.Implies(z3.And(d > 0, x < d), q < 1), z3.Implies(z3.And(d > 0, x >= d), q >= 1),
+                          z3.Implies(z3.And(d > 0, x == d), q == 1), z3.Implies(z3.And(d != 0, x == 0), q == 0)])
+            rdivs[key] = (x, d, q)
+        return rdivs[key][2]
+
     def walk(t):
         k = t.get_id()
         if k in memo:
@@ -144,6 +160,8 @@ def abstract_products(fmls):
                         r = c * r
                 else:
                     r = t.decl()(*kids)
+            elif t.decl().kind() == z3.Z3_OP_DIV and len(kids) == 2 and not _is_num(kids[1]) and z3.is_real(kids[0]):
+                r = rdiv(kids[0], kids[1])
             elif t.decl().kind() in (z3.Z3_OP_IDIV, z3.Z3_OP_MOD) and len(kids) == 2 and not _is_num(kids[1]) and z3.is_int(kids[0]):
                 q, rm = divmod_(kids[0], kids[1])
                 r = q if t.decl().kind() == z3.Z3_OP_IDIV else rm
@@ -161,7 +179,7 @@ def abstract_products(fmls):
             for (x, y), (x2, y2) in (((a, b), (c, d)), ((a, b), (d, c)), ((b, a), (c, d)), ((b, a), (d, c))):
                 if x.get_id() == x2.get_id() and y.sort() == y2.sort():
                     facts.extend(shared_factor_facts(x, y, y2, v, w))
-    return out + facts, len(prods) + len(divmods)
+    return out + facts, len(prods) + len(divmods) + len(rdivs)
 
 
 def check_unsat(fmls, timeout_ms=30000, cvc5_fallback=True, crosscheck=False, want_model=True, tactic=None):
@@ -178,7 +196,7 @@ def check_unsat(fmls, timeout_ms=30000, cvc5_fallback=True, crosscheck=False, wa
             lin, nprod = None, 0
         if nprod:
             s0 = z3.Solver()
-            s0.set("timeout", min(timeout_ms, 5000))
+            s0.set("timeout", min(timeout_ms, 2500))
             s0.add(lin)
             t0 = time.time()
             if s0.check() == z3.unsat:
@@ -198,7 +216,7 @@ def _check_unsat(fmls, timeout_ms=30000, cvc5_fallback=True, crosscheck=False, w
     fmls = list(fmls)
     strings = _has_strings(fmls)
     # z3's sequence solver is erratic; give it a short first try on string VCs and let cvc5 take over
-    first = min(timeout_ms, 4000) if strings else min(timeout_ms, 8000)
+    first = min(timeout_ms, 4000) if strings else min(timeout_ms, 3000)
     s.set("timeout", first if cvc5_fallback else timeout_ms)
     s.add(fmls)
     t = time.time()
@@ -218,6 +236,31 @@ def _check_unsat(fmls, timeout_ms=30000, cvc5_fallback=True, crosscheck=False, w
         return res
     if r == z3.sat:
         return Result("sat", "z3", ms, s.model() if want_model else None)
+    if tactic is None and not strings:
+        # z3's arithmetic / quantifier engines are sensitive to the random seed: an obligation that one seed decides in milliseconds
+        # another seed does not decide at all. Two cheap retries with other seeds before anything expensive.
+        for seed in (1, 2):
+            s2 = z3.Solver()
+            s2.set("timeout", min(timeout_ms, 3000))
+            s2.set("random_seed", seed)
+            s2.add(fmls)
+            t2 = time.time()
+            r2 = s2.check()
+            ms += (time.time() - t2) * 1000
+            if r2 == z3.unsat:
+                res = Result("unsat", "z3", ms)
+                if crosscheck:
+                    cr, cms = run_cvc5(s2.to_smt2(), timeout_ms, False)
+                    res.ms += cms
+                    if cr == "unsat":
+                        res.backend = "z3+cvc5"
+                    elif cr == "sat":
+                        return Result("unknown", "z3/cvc5 disagree", res.ms, note="z3 says unsat, cvc5 says sat")
+                    else:
+                        res.note = "cvc5 cross-check: unknown"
+                return res
+            if r2 == z3.sat:
+                return Result("sat", "z3", ms, s2.model() if want_model else None)
     if cvc5_fallback:
         cr, cms = run_cvc5(s.to_smt2(), timeout_ms, _has_strings(list(fmls)))
         if cr == "unsat":
